@@ -11,6 +11,7 @@
 #define XTL_XSYSTEM_HPP
 
 #if defined(__linux__)
+#  include <climits>
 #  include <unistd.h>
 #endif
 #if defined(_WIN32)
@@ -51,14 +52,18 @@ namespace xtl
         std::string path;
 #if defined(UNICODE)
     wchar_t buffer[1024];
+#elif defined(__linux__) && defined(PATH_MAX)
+    char buffer[PATH_MAX];
 #else
     char buffer[1024];
 #endif
         std::memset(buffer, '\0', sizeof(buffer));
 #if defined(__linux__)
-        if (readlink("/proc/self/exe", buffer, sizeof(buffer)) != -1)
+        ssize_t length = readlink("/proc/self/exe", buffer, sizeof(buffer));
+        if (length != -1)
         {
-            path = buffer;
+            // readlink does not null-terminate and truncates silently
+            path.assign(buffer, static_cast<std::size_t>(length));
         }
         else
         {
